@@ -11,12 +11,13 @@ Report(name, cond) == cond \/ PrintT(<<"MONFAIL", name, l>>)
 Conf(name, cond)   == cond \/ PrintT(<<"CONFFAIL", name, l>>)
 IsEvent(a) == l <= Len(Trace) /\ Trace[l].act = a /\ l' = l + 1
 TxOf(a) == [s |-> a.s, n |-> a.n, c |-> a.c]
+SeqTx(o) == [i \in DOMAIN o |-> TxOf(o[i])]
 
 TrReset == IsEvent("Reset") /\ pending' = {} /\ weights' = <<>> /\ out' = <<>> /\ res' = "init" /\ nops' = 0
 
 TrInsert == IsEvent("Insert") /\ LET e == Trace[l]  t == TxOf(e.args) IN
   /\ Insert(t)
-  /\ Report("ClassBinding", e.prio = t.c)
+  /\ Report("ClassBinding", e.prio = Eff(e.args.k, e.args.m) /\ t.c = Eff(e.args.k, e.args.m))
   /\ Report("InsertAccepted", e.res = "ok")
   /\ Report("Count", e.count = Cardinality(pending'))
 
@@ -28,9 +29,9 @@ TrRemove == IsEvent("Remove") /\ LET e == Trace[l]  t == TxOf(e.args) IN
 TrSelect == IsEvent("Select") /\ LET e == Trace[l] IN
   /\ Select
   /\ Report("SelectTerminates", e.res = "select")
-  /\ Report("SelectContract", SelectOK(e.out, pending))
+  /\ Report("SelectContract", SelectOK(SeqTx(e.out), pending))
   /\ Report("Count", e.count = Cardinality(pending))
-  /\ Conf("AlgoSelect", e.out = out')
+  /\ Conf("AlgoSelect", SeqTx(e.out) = out')
 
 TraceInit == Init /\ l = 1
 TraceNext == TrReset \/ TrInsert \/ TrRemove \/ TrSelect
